@@ -51,8 +51,124 @@ def cases_for(ctx):
     return cases
 
 
+def resub_probe(ctx):
+    """directed probe, implementation-level oracle only: subscriptions over several accessories of a bridge; while a new
+    session is still re-subscribing inside connection_made (the accessory holds its answer to the k-th request) another
+    task changes the subscriptions; then the answer arrives.  After every step the accessory-side census must equal the
+    pairing's current connection, and close() must leave nothing open."""
+    import asyncio
+    import random
+    from unittest.mock import MagicMock
+
+    from aiohomekit.characteristic_cache import CharacteristicCacheMemory
+    from aiohomekit.controller.ip.pairing import IpPairing
+
+    from harness import simnet
+    from harness.acc import Accessory
+
+    async def one(hold_at, op, ids, reconnect, seed):
+        loop = asyncio.get_event_loop()
+        rnd = random.Random(seed)
+        net = simnet.Net(loop)
+        acc = Accessory(loop, net, lambda n: bytes(rnd.randrange(256) for _ in range(n)))
+        held = []
+        nput = [0]
+
+        def responder(s_, method, target, body):
+            if method == "PUT" and target == "/characteristics":
+                nput[0] += 1
+                if nput[0] == hold_at:
+                    held.append(s_.t)
+                    return None  # the accessory is slow to answer this one
+                return b"HTTP/1.1 204 No Content\r\n\r\n"
+            return None
+        ctrl = MagicMock()
+        ctrl._char_cache = CharacteristicCacheMemory()
+        problems = []
+
+        def census(where):
+            op_ = sorted(t.index for t in net.open)
+            cur = p.connection.transport.index if p.connection.transport is not None else None
+            if len(op_) > 1:
+                problems.append(("more-than-one-open", f"{where}: the accessory sees connections {op_} open at once"))
+            elif op_ and op_ != [cur]:
+                problems.append(("leaked-connection", f"{where}: connection(s) {op_} open but the pairing's current connection is {cur}"))
+        with net.patched():
+            p = IpPairing(ctrl, acc.pairing_data(["10.0.0.1"]))
+            p.subscriptions.update({(1, 9), (2, 9), (3, 9), (1, 10)})
+            if reconnect:
+                # a first healthy session, lost; the probe runs on the session the library sets up by itself
+                acc.responder = None
+                await p._ensure_connected()
+                await rcsim.settle(loop)
+                nput[0] = 0
+                acc.responder = responder
+                net.open[-1].peer_close()
+                await rcsim.settle(loop)
+                await asyncio.sleep(2)
+                await rcsim.settle(loop)
+            else:
+                acc.responder = responder
+                asyncio.ensure_future(p._ensure_connected()).add_done_callback(lambda f: f.exception())
+                await rcsim.settle(loop)
+            census("while the new session re-subscribes")
+            # another task changes the subscriptions while the connector is between two of its requests
+            fn = p.subscribe if op == "subscribe" else p.unsubscribe
+            t2 = asyncio.ensure_future(fn(ids))
+            t2.add_done_callback(lambda f: f.cancelled() or f.exception())
+            await rcsim.settle(loop)
+            for t in held:
+                acc.send(t, b"HTTP/1.1 204 No Content\r\n\r\n")
+            acc.responder = None
+            await rcsim.settle(loop)
+            census("after the held answer arrived")
+            for dt in (1, 3, 12, 40):
+                await asyncio.sleep(dt)
+                await rcsim.settle(loop)
+                census(f"{dt} s later")
+            try:
+                await p.close()
+            except BaseException as e:  # noqa: BLE001
+                problems.append(("close-raised", f"close() raised {type(e).__name__}"))
+            await rcsim.settle(loop)
+            if net.open:
+                problems.append(("open-after-close", f"after close(): connection(s) {sorted(t.index for t in net.open)} still open"))
+            try:
+                await p.shutdown()
+            except BaseException:  # noqa: BLE001
+                pass
+            await rcsim.settle(loop)
+        return problems
+
+    k = 0
+    for reconnect in (False, True):
+        for hold_at in (1, 2, 3):
+            for op, ids in (("subscribe", [(4, 9)]), ("subscribe", [(2, 10), (5, 1)]), ("unsubscribe", [(2, 9)]), ("unsubscribe", [(1, 9), (3, 9)])):
+                k += 1
+                loop = simnet.VLoop()
+                asyncio.set_event_loop(loop)
+                try:
+                    problems = loop.run_until_complete(one(hold_at, op, ids, reconnect, ctx.seed * 1009 + k))
+                finally:
+                    pend = [t for t in asyncio.all_tasks(loop) if not t.done()]
+                    for t in pend:
+                        t.cancel()
+                    if pend:
+                        loop.run_until_complete(asyncio.gather(*pend, return_exceptions=True))
+                    asyncio.set_event_loop(None)
+                    loop.close()
+                ctx.evaluations += 1
+                ctx.nontrivial.add(("resub-probe", reconnect, hold_at, op, len(ids)))
+                ctx.dist["resub-probe"] += 1
+                case = {"stream": "resub-probe", "reconnect": reconnect, "hold_at": hold_at, "op": op, "ids": ids}
+                for sig, text in problems[:2]:
+                    if sig in SIGS:
+                        ctx.violation("ip/" + sig, f"{op}({ids}) by another task while the new session's request #{hold_at} of the re-subscription is unanswered ({'after a reconnect' if reconnect else 'first connection'}): {text}", case)
+
+
 def run(ctx: Ctx, driver: Driver):
     run_cases(ctx, driver, ID, SIGS, cases_for(ctx))
+    resub_probe(ctx)
     ctx.notes.append("oracle on the implementation after every event: accessory-side open transports == {pairing.connection.transport}; close()/shutdown() must not raise and must leave none open; "
                      "the loss callback of a transport that is not current must leave the current transport untouched")
 
@@ -63,6 +179,9 @@ def replay(ctx: Ctx, driver: Driver, case):
 
 def search(ctx: Ctx, driver: Driver, broken):
     rng = ctx.rng
+    resub_probe(ctx)
+    if ctx.violations:
+        return
     cases = []
     for i in range(ctx.budget(3000, 30000)):
         h, e = rcsim.gen_random(rng)
